@@ -174,3 +174,19 @@ contract(_S + '.Request.update_attr', name=_S + '.Request.update_attr[is loose? 
                   ('blank_cells_take_defaults', "self.mode is None and self.power is None and self.nb_channel is None and "
                                                 "self.disjoint_from == '' and self.nodes_list == '' and self.path_bandwidth is None")],
          modifies=['self.*'], use_at_calls=False)
+
+# ---- Roadms sheet: a filled per-degree target cell (a filled zero included) becomes the target of the degree facing that neighbour
+_NODE_A = obj('Node', city=const('A'), region=string(), latitude=real(), longitude=real(), preamp_restriction=const(''), booster_restriction=const(''))
+_ROW = lambda: obj('Roadm', from_node=const('A'), to_node=const('B'), target_pch_out_db=CELL(), from_degrees=const(None), impairment_ids=const(None),
+                   type_variety=opt(string()))
+contract(_C + '.create_roadm_element', name=_C + '.create_roadm_element[one Roadms row, no impairment columns]', props=['C20', 'C06'],
+         params={'node': _NODE_A, 'roadms_by_city': dct(A=lst(_ROW()))},
+         let={'row': "roadms_by_city['A'][0]", 'deg': "'east edfa in A to B'"},
+         ensures=[('filled_target_lands_on_the_degree_facing_the_neighbour',
+                   "implies(row.target_pch_out_db is not None, deg in result['params']['per_degree_pch_out_db'] and "
+                   "result['params']['per_degree_pch_out_db'][deg] == row.target_pch_out_db)"),
+                  ('blank_target_sets_nothing', "implies(row.target_pch_out_db is None, deg not in result['params']['per_degree_pch_out_db'])"),
+                  ('element', "result['uid'] == 'roadm A' and result['type'] == 'Roadm'"),
+                  ('type_variety_of_the_row', "implies(row.type_variety is not None, result['type_variety'] == row.type_variety) and "
+                                              "implies(row.type_variety is None, 'type_variety' not in result)")],
+         modifies=[])
